@@ -7,6 +7,7 @@ import (
 	"bufio"
 	"fmt"
 	"os"
+	"os/exec"
 	"path/filepath"
 	"strconv"
 	"strings"
@@ -107,7 +108,62 @@ func replayNames(o *suiteOut, line string) {
 	}
 }
 
+// nameHistories: what a process may do first with the glyph-name functions. Every look-up must give the answer it gives
+// in any other process, whatever was looked up before (the tables are loaded lazily, one per list).
+var nameHistories = [][]string{
+	{"1:a1", "0:dalethatafpatah", "0:A", "1:A_lamedholamdagesh.alt", "0:lamedholamdagesh"},
+	{"1:a2_dalethatafpatah", "0:dalethatafpatah", "1:a2"},
+	{"0:A", "0:dalethatafpatah", "1:a1", "0:a1"},
+	{"1:dalethatafpatah", "0:dalethatafpatah", "1:A"},
+	{"F:1425", "0:dalethatafpatah", "1:a7_a8"},
+	{"V:a.b", "1:a100", "0:finalkafqamats", "F:10003"},
+	{"0:nosuchname", "1:nosuchname", "0:rehatafsegol", "1:a5"},
+	{"1:uni0041", "1:a1_a2", "0:f_f_i", "0:hehfinalalttwoarabic"},
+	{"0:uni05D3", "1:a10", "0:dalethatafpatah", "0:Tcommaaccent"},
+}
+
+func namesHistory(i int) []string {
+	var out []string
+	for _, step := range nameHistories[i%len(nameHistories)] {
+		arg := step[2:]
+		switch step[0] {
+		case 'F':
+			v, _ := strconv.Atoi(arg)
+			out = append(out, step+" -> "+names.FromUnicode(rune(v)))
+		case 'V':
+			out = append(out, step+" -> "+strconv.FormatBool(names.IsValid(arg)))
+		default:
+			out = append(out, step+" -> "+runesStr(names.ToUnicode(arg, step[0] == '1')))
+		}
+	}
+	return out
+}
+
 func suiteNames(o *suiteOut, r *rng, tier string, n int) {
+	defer func() {
+		// histories in fresh processes against the answers of this (by now fully checked) process
+		self, _ := os.Executable()
+		for i := range nameHistories {
+			outB, err := exec.Command(self, "nameschild", "-n", fmt.Sprint(i)).Output()
+			line := fmt.Sprintf("names history %d", i)
+			if err != nil {
+				o.fail("C16", "child process runs", line, "exit 0", err.Error())
+				continue
+			}
+			got := strings.Split(strings.TrimSpace(string(outB)), "\n")
+			want := namesHistory(i)
+			for k := range want {
+				g := "<missing>"
+				if k < len(got) {
+					g = got[k]
+				}
+				if strings.TrimSpace(g) != strings.TrimSpace(want[k]) {
+					o.fail("C16", "a look-up answers the same whatever this process looked up before (step "+fmt.Sprint(k)+" of a history in a fresh process)", line+" "+strings.Join(nameHistories[i][:k+1], ","), want[k], g)
+				}
+			}
+			o.count("look-up histories in fresh processes")
+		}
+	}()
 	// the very first look-up of the process (the tables are loaded lazily) answers like every later one
 	for _, c := range []struct {
 		name string
